@@ -77,7 +77,9 @@ class C37(SimSpec):
                 "C37_every_hook_no_duplicate", "C37_run_hooks_no_duplicate", "C37_every_hook_schedule",
                 "C37_run_hooks_every_combination", "C37_scheduler_every_choice",
                 "C37_scheduler_every_order", "C37_top_order_every_element",
-                "C37_inline_merge_every_interleaving", "C37_top_keyed_every_item"]
+                "C37_inline_merge_every_interleaving", "C37_top_keyed_every_item", "C37_top_kmerge_every_front",
+                "C37_inline_partial_every_interleaving", "C37_inline_kmerge_every_interleaving",
+                "C37_top_merge_no_duplicate", "C37_positional_hooks_duplicate_refuted"]
     level = "other"
     harness_shards = 4
     trusted_base = ["coqc 8.16.1 kernel (vm_compute used for the brute-force enumeration only)",
